@@ -14,7 +14,11 @@ From V Require Import Base.UString Model.Store Model.StoreRun Model.StoreCases M
 Import ListNotations.
 Open Scope list_scope.
 
-(* the choices the text makes in the two stores *)
+(* the choices the text makes in the two stores.
+   NOTE c_mem_filters and c_filename (and, in C18Src, c_navigation and c_environment) are types with ONE constructor:
+   the equalities below hold of any record; for these four sites all the strength is in the translator, which
+   compares the statements of the functions with fixed text and aborts otherwise.  The other fourteen fields have
+   alternatives the translator recognises (c_fam_key and c_sort_key: "any other expression"). *)
 Theorem source_memory_choices :
   c_fam_key src_store_cfg = KeyModified /\ c_latest_cmp src_store_cfg = CmpGt /\ c_mem_filters src_store_cfg = AllChained.
 Proof. exact (conj src_version_table_keyed_by_modified (conj src_latest_is_strictly_greater src_memory_filters_all_chained)). Qed.
@@ -64,7 +68,10 @@ Theorem source_stores_agree : forall mode iot ts2fn, (forall a b : Z, ts2fn a = 
 Proof. exact src_stores_agree. Qed.
 Print Assumptions source_stores_agree.
 
-(* the alternatives the translator recognises each violate the property (kernel-evaluated witnesses) *)
+(* alternatives the translator recognises, with a definite semantics in Model/StoreCfg.v, that violate the property
+   (kernel-evaluated witnesses).  NOT refuted: `>=` in the latest tracking (it still returns a newest version:
+   alternative_latest_ge_still_newest), KeyOther / SortOther ("some other expression": no semantics to evaluate;
+   they only make source_memory_choices / source_filesystem_choices fail). *)
 Theorem alternative_latest_lt_refuted :
   mem_get [] a_id (mem_run_g TextOrder no_iot (cfg_latest CmpLt) [v_obj a_id 1 1; v_obj a_id 2 2]) = Some (v_obj a_id 1 1).
 Proof. exact alt_latest_lt_refuted. Qed.
@@ -85,3 +92,14 @@ Theorem alternative_case_sensitive_refuted :
   fs_query [] (fs_run TextOrder no_iot ts2fn_dec [v_obj uc_id 1 1]) = [v_obj uc_id 1 1].
 Proof. exact alt_case_sensitive_refuted. Qed.
 Print Assumptions alternative_case_sensitive_refuted.
+
+Theorem alternative_latest_le_refuted :
+  mem_get [] a_id (mem_run_g TextOrder no_iot (cfg_latest CmpLe) [v_obj a_id 1 1; v_obj a_id 2 2]) = Some (v_obj a_id 1 1).
+Proof. exact alt_latest_le_refuted. Qed.
+Print Assumptions alternative_latest_le_refuted.
+
+Theorem alternative_latest_ge_still_newest :
+  mem_get [] a_id (mem_run_g TextOrder no_iot (cfg_latest CmpGe) [v_obj a_id 1 1; v_obj a_id 2 2; v_obj a_id 2 3]) = Some (v_obj a_id 2 3) /\
+  mem_get [] a_id (mem_run TextOrder no_iot [v_obj a_id 1 1; v_obj a_id 2 2; v_obj a_id 2 3]) = Some (v_obj a_id 2 2).
+Proof. exact alt_latest_ge_still_newest. Qed.
+Print Assumptions alternative_latest_ge_still_newest.
